@@ -24,8 +24,9 @@ func VerifSetEvidencesC07(s *Staking, evs []Evidence) {
 	s.mutex.Unlock()
 }
 
-// VerifEvidenceRoundsC07 returns (round, cached signer) of the pending evidences.
-func VerifEvidenceRoundsC07(s *Staking) (rounds []uint64, signers []common.Address) {
+// VerifEvidenceRoundsC07 returns (round, cached signer, whether the signatures
+// are for different hashes) of the pending evidences.
+func VerifEvidenceRoundsC07(s *Staking) (rounds []uint64, signers []common.Address, differ []bool) {
 	s.mutex.RLock()
 	defer s.mutex.RUnlock()
 	for i := range s.evidences {
@@ -36,15 +37,27 @@ func VerifEvidenceRoundsC07(s *Staking) (rounds []uint64, signers []common.Addre
 		a, _ := s.evidences[i].addr.Load().(common.Address)
 		rounds = append(rounds, d.Round)
 		signers = append(signers, a)
+		df := false
+		for _, si := range d.Signs {
+			if si.Hash != d.Signs[0].Hash {
+				df = true
+			}
+		}
+		differ = append(differ, df)
 	}
 	return
 }
 
 // VerifDoubleSignC07 is a double-sign evidence for `round` whose signer has
-// already been resolved to `signer`.
-func VerifDoubleSignC07(round uint64, signer common.Address) Evidence {
+// already been resolved to `signer`; with differ=false both signatures are for
+// the same hash (one vote listed twice: not an offence).
+func VerifDoubleSignC07(round uint64, signer common.Address, differ bool) Evidence {
+	second := common.Hash{1}
+	if differ {
+		second = common.Hash{2}
+	}
 	ev := NewEvidence(EvidenceDoubleSignV5{Round: round, RoundIndex: 1, SignerIdx: 0, VoteType: Prevote,
-		Signs: []*SignInfo{{Hash: common.Hash{1}, Sign: []byte{1}}, {Hash: common.Hash{2}, Sign: []byte{2}}}})
+		Signs: []*SignInfo{{Hash: common.Hash{1}, Sign: []byte{1}}, {Hash: second, Sign: []byte{2}}}})
 	ev.addr.Store(signer)
 	return ev
 }
